@@ -210,19 +210,30 @@ class VariantRecord():
         right_insert_end = self.attrs.get('RIGHT_INSERT_END')
         return hash((self.location.start, self.location.end, self.ref, self.alt,
             self.type, donor_tx_id, start, end, donor_start, donor_end,
-            left_insert_start, left_insert_end, right_insert_start, right_insert_end))
+            left_insert_start, left_insert_end, right_insert_start, right_insert_end,
+            self.get_fusion_accepter_key()))
 
     def __repr__(self) -> str:
         """Return representation of the VEP record."""
         return f"{self.location.start}:{self.location.end} {self.ref} ->" +\
             f" {self.alt}"
 
+    def get_fusion_accepter_key(self) -> tuple:
+        """ The accepter side of a fusion. Two fusions of the same donor
+        breakpoint are different variants if their accepters differ. """
+        return (
+            self.attrs.get('ACCEPTER_GENE_ID'),
+            self.attrs.get('ACCEPTER_TRANSCRIPT_ID'),
+            str(self.attrs.get('ACCEPTER_POSITION'))
+        )
+
     def __eq__(self, other:VariantRecord) -> bool:
         """ equal to """
         return self.location == other.location and \
             self.ref == other.ref and \
             self.alt == other.alt and \
-            self.type == other.type
+            self.type == other.type and \
+            self.get_fusion_accepter_key() == other.get_fusion_accepter_key()
 
     def __ne__(self, other:VariantRecord) -> bool:
         """ not equal to """
